@@ -9,7 +9,7 @@ from vlib import drive
 
 PROPERTY = "C14"
 RULE = ("case: strategy in {dimension-wise (versions 6/2/3/7/8, rebalancing, boundary), extend-split (versions 0-2), cell (lmin=lmax)}, d 2-3, a built-in "
-        "(dill-picklable) integrand with drawn parameters, the library's own error estimators (dimension-wise also a stateless scripted estimator that refines towards one target point: strongly one-sided trees, rebalancing rotations), final limit K2. The uninterrupted run "
+        "(dill-picklable) integrand with drawn parameters and a drawn unit (values scaled by 1e-12 .. 1e8, also negative), the library's own error estimators (dimension-wise also a stateless scripted estimator that refines towards one target point: strongly one-sided trees, rebalancing rotations), final limit K2. The uninterrupted run "
         "(final limits: max_evaluations=K2 and either no tolerance or an error value observed in the tol=-1 history) is recorded; then EVERY evaluation index k of that run (all of them in the thorough tier and whenever "
         "the history has <= 8 evaluations, otherwise a drawn subset of 8) is used as interruption point: a fresh run with "
         "max_evaluations = n_k - 1 (or with the weaker tolerance err_k) stops there and is continued to K2 in a drawn mode: continue directly / save_to_file -> "
@@ -25,6 +25,31 @@ ASSUMPTIONS = [
 
 
 def make_function(case):
+    g = make_base_function(case)
+    fs = case.get("fscale", 1.0)
+    if fs == 1.0:
+        return g
+    from sparseSpACE import Function as F
+
+    class Scaled(F.Function):
+        """the integrand in other units (values of tiny / huge magnitude): every clause of the statement is scale free"""
+        def __init__(self, inner, s):
+            super().__init__()
+            self.inner = inner
+            self.s = float(s)
+
+        def output_length(self):
+            return self.inner.output_length()
+
+        def eval(self, coordinates):
+            return self.s * self.inner.eval(coordinates)
+
+        def getAnalyticSolutionIntegral(self, start, end):
+            return self.s * self.inner.getAnalyticSolutionIntegral(start, end)
+    return Scaled(g, fs)
+
+
+def make_base_function(case):
     from sparseSpACE import Function as F
     dim = case["dim"]
     rng = np.random.default_rng(case["fseed"])
@@ -236,7 +261,7 @@ def run(case):
             snap2 = snapshot(obj, kind)
             res2 = np.asarray(r2[3], dtype=float)
             same_struct = snap2 == full_snap
-            same_res = np.allclose(res2, full_res, rtol=1e-12, atol=1e-14)
+            same_res = np.allclose(res2, full_res, rtol=1e-12, atol=1e-14 * abs(case.get("fscale", 1.0)))
             same_n = int(r2[6][-1]) == N[-1]
             t2 = "%s, continued %s object" % (tag, name)
             if not same_struct:
@@ -245,7 +270,7 @@ def run(case):
             if not same_n:
                 out.bad(sub + "/final-point-count-differs", "%s: %d vs %d" % (t2, int(r2[6][-1]), N[-1]))
             if not same_res:
-                if kind == "es" and same_struct and extra is not None and np.allclose(res2 - full_res, extra, rtol=1e-9, atol=1e-13) and np.any(extra != 0):
+                if kind == "es" and same_struct and extra is not None and np.allclose(res2 - full_res, extra, rtol=1e-9, atol=1e-13 * abs(case.get("fscale", 1.0))) and np.any(extra != 0):
                     out.bad(sub + "/final-result-differs/newest-areas-at-interruption-counted-twice",
                             "%s: result %s vs uninterrupted %s; difference equals the sum of the values of the %d areas that were new at the interruption (%s)" % (
                                 t2, res2, full_res, len(sa2.refinement.get_new_objects()) if name == "original" else -1, extra))
@@ -255,6 +280,7 @@ def run(case):
                 nt += 1
             out.cls("mode=" + mode, "leg=" + leg, "final-tol=%s" % ("none" if tol_final == -1 else "observed-error"))
     out.nontrivial = nt >= 1
+    out.cls("integrand-scale=%g" % case.get("fscale", 1.0))
     out.cls("kind=" + kind, "version=%d" % case["version"], "function=" + case["function"], "estimator=" + case.get("estimator", "library"))
     out.info = dict(max_history_len=len(N), max_interruptions=len(ks), max_points=N[-1])
     return out
@@ -273,7 +299,8 @@ def _strategy(kind):
                      all_points=(tier == "thorough"),
                      tol_sel=[draw(st.sampled_from([0, 1, 1])), draw(st.integers(0, 40))],
                      legs=draw(st.lists(st.sampled_from(["max", "max", "tol"]), min_size=1, max_size=3)),
-                     noop=draw(st.lists(st.booleans(), min_size=1, max_size=3)))
+                     noop=draw(st.lists(st.booleans(), min_size=1, max_size=3)),
+                     fscale=draw(st.sampled_from([1.0, 1.0, 1.0, 1e-12, 1e-10, 1e-6, 1e3, 1e8, -1e-11])))
             if kind == "dw":
                 c.update(lmin=1, lmax=2, version=draw(st.sampled_from([6, 6, 2, 3, 7, 8])), rebalancing=draw(st.booleans()),
                          boundary=draw(st.booleans()), maxev=draw(st.integers(30, 250 if dim == 2 else 200)),
